@@ -3,6 +3,7 @@ import Flowjaxv.Driver.Leaves
 import Flowjaxv.Driver.Tree
 import Flowjaxv.Driver.Misc
 import Flowjaxv.Driver.ArrTree
+import Flowjaxv.Driver.JaxTr
 import Flowjaxv.Driver.AdDrv
 import Flowjaxv.Driver.PyTree
 import Flowjaxv.Driver.Masks
@@ -44,6 +45,7 @@ def dispatch (line : String) : String :=
       | "atree" => atree args
       | "atreeh" => atreeh args
       | "jnpprim" => jnpprim args
+      | "jaxtrvmap" => jaxtrvmap args
       | "ad" => ad args
       | "adfam" => adfam args
       | "adplanar" => adplanar args
